@@ -112,8 +112,8 @@ def ref_likelihood(sim, real, h):
             for s in range(S):
                 sq = sum((sim[r, s, d] - real[t, d]) ** 2 for d in range(D)) / D
                 acc += math.exp(-sq / (2 * hh ** 2)) / (hh ** D * (2 * math.pi) ** (D / 2.0))
-            with np.errstate(all="ignore"):
-                tot += math.log(acc / S) if acc > 0 else float("-inf")
+            v = acc / S          # (a positive denormal sum can still underflow to 0.0 here)
+            tot += math.log(v) if v > 0 else float("-inf")
     return -tot / R
 
 
